@@ -19,11 +19,9 @@
 
 /* ---------------- stubs (libc callees; cbmc only -- the native replay uses libc) ---------------- */
 #ifdef H4V_CBMC
-int   nondet_int(void);
-char  g_envbuf[2];
-FILE *g_dbg_stream;  /* the stream fopen hands out */
-int   g_dbg_open;    /* ghost: a debug stream is open */
-int   g_dbg_lines;   /* ghost: lines written to it */
+int  nondet_int(void);
+char g_envbuf[2];
+char g_dbg_obj[8]; /* stands for the FILE object of "hdiff.debug" */
 char *
 getenv(const char *name)
 {
@@ -34,25 +32,22 @@ FILE *
 fopen(const char *path, const char *mode)
 {
     /* A-DEBUGFILE: opening "hdiff.debug" succeeds (the real code does not check the result) */
-    g_dbg_open = 1;
-    return g_dbg_stream;
+    return (FILE *)g_dbg_obj;
 }
 int
 fprintf(FILE *f, const char *fmt, ...)
 {
-    g_dbg_lines++;
     return 0;
 }
 int
 fclose(FILE *f)
 {
-    g_dbg_open = 0;
     return 0;
 }
 #endif
 
 #include "hdf.h"
-/* ---------------- ghosts (declared before the real file: its loop invariants mention them) ---------------- */
+/* ---------------- ghosts ---------------- */
 uint32 g_k;   /* ghost element index: a proof for arbitrary g_k is a proof for every element */
 int    g_same; /* ghost flag set by the harness: the two buffers hold equal contents */
 
@@ -64,7 +59,7 @@ int    g_same; /* ghost flag set by the harness: the two buffers hold equal cont
 
 /* print_pos: converts the linear index curr_pos into a matrix position pos[0..rank-1] using the
    strides acc[] (acc[rank-1] == 1) and prints it (the printed text is not modelled).
-   Clauses: header flag cleared; the position is the row-major decomposition of curr_pos
+   Clauses: header flag 1 -> 0 (header printed once), otherwise unchanged; the position is the row-major decomposition of curr_pos
    (stated for rank <= 3; for larger ranks only sign and frame); nothing but *ph and pos[] written. */
 int g_j;       /* ghost dimension index */
 int g_pp_full; /* ghost switch: 1 = state the decomposition clauses (h_print_pos); 0 = frame only (inside
@@ -77,7 +72,7 @@ static void print_pos(int *ph, uint32 curr_pos, int32 *acc, int32 *pos, int rank
     __CPROVER_requires(rank < 2 || acc[0] >= 1)
     __CPROVER_requires(rank < 3 || acc[1] >= 1)
     __CPROVER_assigns(*ph, __CPROVER_object_upto(pos, rank * sizeof(int32)))
-    __CPROVER_ensures(*ph == 0)
+    __CPROVER_ensures(*ph == (__CPROVER_old(*ph) == 1 ? 0 : __CPROVER_old(*ph)))
     __CPROVER_ensures((g_pp_full && rank <= 3) ==> pos[g_j] >= 0)
     __CPROVER_ensures((g_pp_full && rank == 1) ==> pos[0] == (int32)curr_pos)
     __CPROVER_ensures((g_pp_full && rank == 2) ==> ((long long)pos[0] * acc[0] + pos[1] == (long long)curr_pos && pos[1] < acc[0]))
@@ -99,7 +94,7 @@ uint32 array_diff(void *buf1, void *buf2, uint32 tot_cnt, const char *name1, con
     __CPROVER_requires(err_limit == 0.0F && err_rel == 0.0F && statistics == 0)
     __CPROVER_requires(fill1 == NULL && fill2 == NULL)
     __CPROVER_requires(g_k < tot_cnt)
-    __CPROVER_assigns(g_dbg_open, g_dbg_lines)
+    __CPROVER_assigns()
     /* C19 "flags any change to a single data value": element g_k differs ==> a difference is found */
     __CPROVER_ensures(AD_E1(g_k) != AD_E2(g_k) ==> __CPROVER_return_value > 0)
     /* C19 reflexivity: equal contents (ghost flag set by the harness that built them) ==> no difference */
@@ -212,9 +207,24 @@ h_array_diff_count(void)
 #ifndef H4V_PPRANK
 #define H4V_PPRANK 3
 #endif
+#ifndef H4V_CBMC
+#include <signal.h>
+#include <unistd.h>
+/* native replay: print_pos ends in a libc assert(); report its abort as a failed replay */
+static void
+h4v_on_abort(int sig)
+{
+    static const char m[] = "H4V-REPLAY FAILED: assert() of the real print_pos aborted\n";
+    (void)!write(1, m, sizeof m - 1);
+    _exit(1);
+}
+#endif
 void
 h_print_pos(void)
 {
+#ifndef H4V_CBMC
+    signal(SIGABRT, h4v_on_abort);
+#endif
     H4V_HAVOC(int, g_j);
     g_pp_full = 1;
     H4V_ND(int, rank);
@@ -228,12 +238,17 @@ h_print_pos(void)
     H4V_ND(int32, acc0);
     H4V_ND(int32, acc1);
     H4V_ND(int32, acc2);
+#ifdef H4V_ACC0
+    /* strides fixed per obligation (symbolic / and * of two unknowns does not terminate) */
+    H4V_ASSUME(acc0 == (rank == 3 ? H4V_ACC0 : rank == 2 ? H4V_ACC1 : 1) && acc1 == (rank == 3 ? H4V_ACC1 : 1));
+#endif
     acc[0] = acc0;
     if (rank > 1)
         acc[1] = acc1;
     if (rank > 2)
         acc[2] = acc2;
     print_pos(&ph, curr_pos, acc, pos, rank, "a", NULL);
-    H4V_COVER(rank == 3 && pos[0] > 0 && pos[1] > 0 && pos[2] > 0, "print_pos rank 3 interior position");
+    H4V_COVER(rank == H4V_PPRANK && pos[0] > 0 && pos[rank - 1] > 0, "print_pos interior position at the highest rank");
+    H4V_COVER(ph0 == 1, "print_pos prints the header");
     H4V_CANARY("print_pos end");
 }
